@@ -97,6 +97,13 @@ structure St where
   mem : List Batch := []
   /-- the datastore under the prefix `batches` -/
   disk : Disk := []
+  /-- datastore fault injection (outside the property's quantifier, modelled for the correspondence): the next
+  `failPut` single `Put`s / `failDel` single `Delete`s of this process return an error and write nothing -/
+  failPut : Nat := 0
+  failDel : Nat := 0
+  /-- the queue bound this process was (re)started with, if it differs from `cfg.max`
+  (`restart max=n`: the operator changed `maxQueueSize` between two lives of the node) -/
+  maxOverride : Option Nat := none
   deriving Repr, DecidableEq, Inhabited
 
 inductive Op
@@ -117,6 +124,10 @@ inductive Op
   | qnext
   /-- `BatchQueue.Load` on the live queue -/
   | load
+  /-- stop, start again on the same datastore **with the queue bound `max`** (0 = unlimited) -/
+  | restartMax (max : Nat)
+  /-- arm the datastore's fault injection: the next `put` single Puts and the next `del` single Deletes fail -/
+  | fail (put del : Nat)
   deriving Repr, DecidableEq, Inhabited
 
 inductive Out
@@ -127,21 +138,25 @@ inductive Out
   | batch (b : Batch)  -- handed out
   | empty              -- nothing to hand out
   | restarted
+  | errStore           -- the datastore write failed (`failed to add batch: …`)
   deriving Repr, DecidableEq, Inhabited
 
 /-- the answers that refuse a submission or request (an empty submission is acknowledged but dropped) -/
 def Out.refused (o : Out) : Bool := o == .errId || o == .errFull || o == .skipEmpty
 
-def full (cfg : Cfg) (s : St) : Bool := decide (0 < cfg.max) && decide (cfg.max ≤ s.mem.length)
+/-- the bound in force: the one the process was last started with -/
+def effMax (cfg : Cfg) (s : St) : Nat := s.maxOverride.getD cfg.max
+
+def full (cfg : Cfg) (s : St) : Bool := decide (0 < effMax cfg s) && decide (effMax cfg s ≤ s.mem.length)
 
 section
 variable (key : Batch → Nat)
 
 /-- the effect of an accepted `AddBatch`: durable `Put` under the content key, then append in memory -/
-def accept (s : St) (b : Batch) : St := { mem := s.mem ++ [b], disk := s.disk.put (key b) b }
+def accept (s : St) (b : Batch) : St := { s with mem := s.mem ++ [b], disk := s.disk.put (key b) b }
 
 /-- the effect of a `Next` that finds `b` at the head: pop, then durable `Delete` of the content key -/
-def pop (s : St) (b : Batch) (r : List Batch) : St := { mem := r, disk := s.disk.del (key b) }
+def pop (s : St) (b : Batch) (r : List Batch) : St := { s with mem := r, disk := s.disk.del (key b) }
 
 /-- `BatchQueue.AddBatch` -/
 def addBatch (cfg : Cfg) (s : St) (b : Batch) : St × Out :=
@@ -153,8 +168,29 @@ def nextBatch (s : St) : St × Out :=
   | [] => (s, .empty)
   | b :: r => (pop key s b r, .batch b)
 
-/-- `BatchQueue.Load`: memory := the datastore's values in key order -/
-def reload (s : St) : St := { mem := s.disk.map (·.2), disk := s.disk }
+/-- `BatchQueue.Load`: memory := the datastore's values in key order – **all** of them: `Load` does not
+look at `maxQueueSize` (the bound is an admission bound).  A (re)started process has a healthy datastore. -/
+def reload (s : St) : St := { s with mem := s.disk.map (·.2), failPut := 0, failDel := 0 }
+
+/-! ### the same with datastore errors (`St.failPut`, `St.failDel`); `addBatch` … `getNext` above are the
+fault-free behaviour (`addBatchF_eq` … in `Proofs/C10.lean`) -/
+
+/-- `AddBatch` when the `Put` may fail: the bound is checked first; a failing `Put` returns the error and the
+batch is **not** appended in memory (`queue.go`: `if err := bq.db.Put(…); err != nil { return err }`) -/
+def addBatchF (cfg : Cfg) (s : St) (b : Batch) : St × Out :=
+  if full cfg s then (s, .errFull)
+  else if 0 < s.failPut then ({ s with failPut := s.failPut - 1 }, .errStore)
+  else (accept key s b, .ok)
+
+/-- the effect of a `Next` whose `Delete` fails: the head is popped and handed out, the error is only logged
+(`queue.go`: "Log the error but continue") – the write-ahead record stays -/
+def popKeep (s : St) (r : List Batch) : St := { s with mem := r, failDel := s.failDel - 1 }
+
+/-- `Next` when the `Delete` may fail -/
+def nextBatchF (s : St) : St × Out :=
+  match s.mem with
+  | [] => (s, .empty)
+  | b :: r => if 0 < s.failDel then (popKeep s r, .batch b) else (pop key s b r, .batch b)
 
 /-- `Sequencer.SubmitBatchTxs` -/
 def submit (cfg : Cfg) (s : St) (id : Bytes) (b : Batch) : St × Out :=
@@ -166,33 +202,47 @@ def submit (cfg : Cfg) (s : St) (id : Bytes) (b : Batch) : St × Out :=
 def getNext (cfg : Cfg) (s : St) (id : Bytes) : St × Out :=
   if id ≠ cfg.id then (s, .errId) else nextBatch key s
 
+/-- `Sequencer.SubmitBatchTxs` when the `Put` may fail -/
+def submitF (cfg : Cfg) (s : St) (id : Bytes) (b : Batch) : St × Out :=
+  if id ≠ cfg.id then (s, .errId)
+  else if b.isEmpty then (s, .skipEmpty)
+  else addBatchF key cfg s b
+
+/-- `Sequencer.GetNextBatch` when the `Delete` may fail -/
+def getNextF (cfg : Cfg) (s : St) (id : Bytes) : St × Out :=
+  if id ≠ cfg.id then (s, .errId) else nextBatchF key s
+
 /-- one operation; the output of a crashed operation is what it would have answered -/
 def step (cfg : Cfg) (s : St) : Op → St × Out
-  | .submit id b => submit key cfg s id b
-  | .next id => getNext key cfg s id
+  | .submit id b => submitF key cfg s id b
+  | .next id => getNextF key cfg s id
   | .restart => (reload s, .restarted)
-  | .crashSubmit true id b => let r := submit key cfg s id b; (reload r.1, r.2)
-  | .crashSubmit false id b => (reload s, (submit key cfg s id b).2)
-  | .crashNext true id => let r := getNext key cfg s id; (reload r.1, r.2)
-  | .crashNext false id => (reload s, (getNext key cfg s id).2)
-  | .add b => addBatch key cfg s b
-  | .qnext => nextBatch key s
+  | .crashSubmit true id b => let r := submitF key cfg s id b; (reload r.1, r.2)
+  | .crashSubmit false id b => (reload s, (submitF key cfg s id b).2)
+  | .crashNext true id => let r := getNextF key cfg s id; (reload r.1, r.2)
+  | .crashNext false id => (reload s, (getNextF key cfg s id).2)
+  | .add b => addBatchF key cfg s b
+  | .qnext => nextBatchF key s
   | .load => (reload s, .restarted)
+  | .restartMax n => (reload { s with maxOverride := some n }, .restarted)
+  | .fail p d => ({ s with failPut := p, failDel := d }, .restarted)
 
 /-- the state of the process right after the operation's effect and *before* it stops: for the
 operations that restart (`restart`, `load`, the crashes) this is the state whose durable part is then
 reloaded; for the others it is the state after the operation. -/
 def stepCore (cfg : Cfg) (s : St) : Op → St
-  | .submit id b => (submit key cfg s id b).1
-  | .next id => (getNext key cfg s id).1
+  | .submit id b => (submitF key cfg s id b).1
+  | .next id => (getNextF key cfg s id).1
   | .restart => s
-  | .crashSubmit true id b => (submit key cfg s id b).1
+  | .crashSubmit true id b => (submitF key cfg s id b).1
   | .crashSubmit false _ _ => s
-  | .crashNext true id => (getNext key cfg s id).1
+  | .crashNext true id => (getNextF key cfg s id).1
   | .crashNext false _ => s
-  | .add b => (addBatch key cfg s b).1
-  | .qnext => (nextBatch key s).1
+  | .add b => (addBatchF key cfg s b).1
+  | .qnext => (nextBatchF key s).1
   | .load => s
+  | .restartMax n => { s with maxOverride := some n }
+  | .fail p d => { s with failPut := p, failDel := d }
 
 /-! ## ghost history: what has been accepted / removed / handed out / lost so far -/
 
@@ -255,6 +305,26 @@ def Op.plain : Op → Bool
   | .submit .. | .next .. | .add .. | .qnext => true
   | _ => false
 
+/-- the operation stops the process and reloads the queue from the datastore -/
+def Op.reloads : Op → Bool
+  | .restart | .restartMax _ | .load | .crashSubmit .. | .crashNext .. => true
+  | _ => false
+
+/-- the operation arms failing `Delete`s (datastore errors are outside the property's quantifier) -/
+def Op.armsDelete : Op → Bool
+  | .fail _ d => decide (0 < d)
+  | _ => false
+
+/-- the operation changes the queue bound -/
+def Op.changesBound : Op → Bool
+  | .restartMax _ => true
+  | _ => false
+
+/-- an operation within one process lifetime: a call, or the arming of datastore faults -/
+def Op.lifetime : Op → Bool
+  | .submit .. | .next .. | .add .. | .qnext | .fail .. => true
+  | _ => false
+
 /-- the process dies between the durable `Delete` of `Next` and its return -/
 def Op.crashAfterDelete : Op → Bool
   | .crashNext true _ => true
@@ -262,6 +332,7 @@ def Op.crashAfterDelete : Op → Bool
 
 /-! ## the abstract FIFO the property speaks about -/
 
+/-- (the abstract FIFO has the configured bound `cfg.max` and a healthy store) -/
 def afull (cfg : Cfg) (q : List Batch) : Bool := decide (0 < cfg.max) && decide (cfg.max ≤ q.length)
 
 def astep (cfg : Cfg) (q : List Batch) : Op → List Batch × Out
